@@ -104,6 +104,25 @@ def call(rid, out, ci, oi, surplus, mode, v0, v1, v2, v3, v4, v5, split_region=F
     return True
 
 
+def func_siblings(rid, o1, o2, v0, v1, v2, v3, v4, v5):
+    """Pipeline.func for two different outputs requested from the same pipeline object"""
+    L.reset()
+    t = R[rid]
+    vals = (v0, v1, v2, v3, v4, v5)
+    with NoTracing():
+        log = []
+        p = runt.make(t, log)
+        runt.warm(p)
+    for out in (o1, o2, o1):
+        kw = {a: x for a, x in zip(p.root_args(out), vals)}
+        exp, _, _, _ = runt.ref_eval(t, out, kw)
+        if not (p.func(out)(**kw) == exp):
+            return fail("Pipeline.func(out) differs from the composition")
+        if not (p.func(out).call_full_output(**kw)[out] == exp):
+            return fail("call_full_output")
+    return True
+
+
 def listed_combo_accepted(rid, out, ci, v0, v1, v2, v3, v4, v5):
     """every combination listed by the real arg_combinations is accepted and yields the composed value"""
     L.reset()
@@ -149,7 +168,7 @@ CANARIES["default_beats_kwarg_in_ternary_functions"] = _canary_default_over_kwar
 def obligations(tier):
     thorough = tier == "thorough"
     obs = []
-    rids = ["R1", "R2", "R3", "R4", "R5", "R7", "R8", "R9", "R10", "R11"] if not thorough else list(R)
+    rids = ["R1", "R2", "R3", "R4", "R5", "R7", "R8", "R9", "R10", "R11", "R16"] if not thorough else list(R)
     for rid in rids:
         t = R[rid]
         for out in _outputs(t):
@@ -182,6 +201,12 @@ def obligations(tier):
             bounds="R3: run(full_output=True) when one output of the multi-output node is supplied and the other computed (region of known finding F19)",
         )
     )
+    for rid, o1, o2 in (("R3", "d", "e"), ("R7", "p", "q"), ("R7", "q", ("p", "q")), ("R10", "q", "p"), ("R11", "p", "q")):
+        oid = lambda o: "_".join(o) if isinstance(o, tuple) else o  # noqa: E731
+        obs.append(
+            Ob(f"funcsib_{rid}_{oid(o1)}_{oid(o2)}", VALS, [], f"H.func_siblings({rid!r}, {o1!r}, {o2!r}, {VARGS})", timeout=120,
+               bounds=f"{rid}: Pipeline.func requested for {o1}, then {o2}, then {o1} again on one pipeline object")  # fmt: skip
+        )
     # the recorded finding: a listed combination that is not accepted (tuple-output diamond)
     nc = 0
     obs.append(
